@@ -376,7 +376,7 @@ func (w *vfC09World) settled() bool {
 			// the server answered itself (session): settled when it is back waiting for the peer
 			return p.blocked() || p.closed
 		}
-		return w.returned
+		return w.returned || p.closed
 	}
 	if w.dialErr {
 		return w.returned
